@@ -20,10 +20,10 @@ from symx.npproxy import NPProxy
 from symx.prove import Prover
 from symx.runner import Acc
 from symx.selftest import sparse_selftest
-from harness.common import bound, z, fval, isclose
+from harness.common import bypass_guard, bound, z, fval, isclose
 
 PROPERTY = "C04"
-FUNCTIONS = ["molgri.space.voronoi.AbstractVoronoi.get_reduced_vertices_regions", "molgri.space.voronoi.RotobjVoronoi._calculate_center_distances (4D)", "molgri.space.voronoi.HalfRotobjVoronoi._calculate_N_N_array", "HalfRotobjVoronoi._get_upper_indices",
+FUNCTIONS = ["molgri.space.rotobj.SphereGridNDim.gen_grid (choice of the cell model)", "molgri.space.voronoi.AbstractVoronoi.get_reduced_vertices_regions", "molgri.space.voronoi.RotobjVoronoi._calculate_center_distances (4D)", "molgri.space.voronoi.HalfRotobjVoronoi._calculate_N_N_array", "HalfRotobjVoronoi._get_upper_indices",
              "molgri.space.voronoi.AbstractVoronoi._calculate_N_N_array", "AbstractVoronoi.get_all_voronoi_regions/get_dim",
              "molgri.space.utils.which_row_is_k", "utils.q_in_upper_sphere", "utils.distance_between_quaternions",
              "utils.angle_between_vectors", "utils.normalise_vectors", "utils.norm_per_axis"]
@@ -79,6 +79,8 @@ def shapes(tier, seed):
     for dim in (3, 4):
         for m in ((2, 3) if tier == "quick" else (2, 3, 4)):
             out.append({"kind": "reduce", "dim": dim, "m": m})
+        for N in (1, 2, 3, 4, 5, 6):
+            out.append({"kind": "cell_model", "dim": dim, "N": N})
     out.append({"kind": "distance", "via": "utils"})
     out.append({"kind": "distance", "via": "voronoi"})
     out.sort(key=lambda s: (s.get("N", 0), s.get("n", 0)))
@@ -97,7 +99,72 @@ def gen_G(N, gseed):
 
 
 def run_shape(shape):
-    return {"fold": run_fold, "assembly": run_assembly, "distance": run_distance, "reduce": run_reduce}[shape["kind"]](shape)
+    return {"fold": run_fold, "assembly": run_assembly, "distance": run_distance, "reduce": run_reduce, "cell_model": run_cell_model}[shape["kind"]](shape)
+
+
+# ------------------------------------------------------------------------------------------------------ which cell model
+def run_cell_model(shape):
+    """'For every rotation grid with at least four points' the relations come from the Voronoi cells: the real SphereGridNDim.gen_grid
+    must hand a grid of N >= 4 points to the (half-)sphere Voronoi class and only smaller grids to the estimated model.  The Voronoi
+    classes are markers here (their constructors are Qhull); N is a case, the grid rows are generic concrete unit vectors."""
+    import molgri.space.rotobj as RO
+    dim, N = shape["dim"], shape["N"]
+    eng = Engine()
+    prover = Prover(timeout_ms=5000, budget_s=60)
+    acc = Acc(shape)
+    rng = np.random.default_rng(40 + N)
+    G = np.abs(rng.normal(size=(N, dim))) + 0.1
+    G /= np.linalg.norm(G, axis=1)[:, None]
+
+    class MarkHalf:
+        def __init__(self, *a, **k):
+            pass
+
+    class MarkFull:
+        def __init__(self, *a, **k):
+            pass
+
+    def body():
+        with bound(RO, print=noprint, HalfRotobjVoronoi=MarkHalf, RotobjVoronoi=MarkFull):
+            base = RO.SphereGrid4Dim if dim == 4 else RO.SphereGrid3Dim
+
+            class Gen(base):
+                algorithm_name = "cube4D" if dim == 4 else "ico"
+
+                def _gen_grid(self):
+                    if dim == 4:
+                        self.grid = G.copy()
+                        return super()._gen_grid()
+                    return G.copy()
+            g = Gen(N=N)
+            g.gen_grid()
+            return type(g.get_spherical_voronoi()).__name__
+
+    expected = ("MarkHalf" if dim == 4 else "MarkFull") if N >= 4 else "MikroVoronoi"
+    for path in eng.explore(body):
+        acc.begin(prover, path)
+        acc.reach("sat")
+        if path.kind == "exc":
+            acc.structural("no_exception", False, detail=repr(path.value) + (path.tb or "")[-500:], cex={"kind": "exception", "exc": type(path.value).__name__})
+            continue
+        acc.structural("voronoi_cells_for_four_or_more_points", path.value == expected, detail={"N": N, "dim": dim, "cell_model": path.value, "expected": expected})
+    return acc.result(eng.stats, prover.stats)
+
+
+def replay_cell_model(cex):
+    import contextlib, io
+    import molgri.space.rotobj as RO
+    s = cex["shape"]
+    dim, N = s["dim"], s["N"]
+    with contextlib.redirect_stdout(io.StringIO()):
+        try:     # public API, real Qhull
+            g = (RO.SphereGrid4DFactory if dim == 4 else RO.SphereGrid3DFactory).create("cube4D" if dim == 4 else "ico", N)
+            got = type(g.get_spherical_voronoi()).__name__
+        except Exception as e:  # noqa: BLE001
+            return {"reproduced": True, "detail": f"create(N={N}) raised {e!r}"}
+    expected = ("HalfRotobjVoronoi" if dim == 4 else "RotobjVoronoi") if N >= 4 else "MikroVoronoi"
+    return {"reproduced": got != expected, "detail": f"{'cube4D' if dim == 4 else 'ico'} grid with N={N}: cell model {got}, expected {expected}"}
+
 
 
 # ------------------------------------------------------------------------------------------------------ vertex reduction
@@ -139,6 +206,7 @@ def run_reduce(shape):
     for path in eng.explore(body):
         acc.begin(prover, path)
         if path.kind == "exc":
+            bypass_guard(path.value)
             acc.structural("no_exception", False, detail=repr(path.value) + (path.tb or "")[-600:], cex={"kind": "exception", "exc": type(path.value).__name__, "model": _model(path)})
             continue
         if acc.reachable is not True:
@@ -268,6 +336,7 @@ def run_fold(shape):
         acc.begin(prover, path)
         cexinfo = {"gseed": shape["gseed"]}
         if path.kind == "exc":
+            bypass_guard(path.value)
             acc.structural("no_exception", False, detail=repr(path.value) + (path.tb or "")[-500:], cex=dict(cexinfo, kind="exception", exc=type(path.value).__name__, model=_model(path)))
             continue
         if acc.reachable is not True:
@@ -438,6 +507,7 @@ def run_assembly(shape):
     for path in eng.explore(body):
         acc.begin(prover, path)
         if path.kind == "exc":
+            bypass_guard(path.value)
             acc.structural("no_exception", False, detail=repr(path.value) + (path.tb or "")[-500:], cex={"kind": "exception", "exc": type(path.value).__name__})
             continue
         if acc.reachable is not True:
@@ -534,6 +604,7 @@ def run_distance(shape):
     for path in eng.explore(body):
         acc.begin(prover, path)
         if path.kind == "exc":
+            bypass_guard(path.value)
             acc.structural("no_exception", False, detail=repr(path.value) + (path.tb or "")[-800:], cex={"kind": "exception", "exc": type(path.value).__name__})
             continue
         if acc.reachable is not True:
@@ -605,7 +676,7 @@ def replay_distance(cex):
 
 
 def replay(cex):
-    return {"fold": replay_fold, "assembly": replay_assembly, "distance": replay_distance, "reduce": replay_reduce}[cex["shape"]["kind"]](cex)
+    return {"fold": replay_fold, "assembly": replay_assembly, "distance": replay_distance, "reduce": replay_reduce, "cell_model": replay_cell_model}[cex["shape"]["kind"]](cex)
 
 
 def finding_key(cex):
